@@ -110,7 +110,8 @@ CHECKS = {
     ),
     "C08": dict(
         level="model_checking",
-        mc=[dict(module="MC_Eip712", workers=16)],
+        mc=[dict(module="MC_Eip712", workers=16),
+            dict(module="MC_Eip712", tag="MC_Eip712_4types", workers=16, tiers=("thorough",), env=dict(MC_TYPES="4", MC_REFS="2"))],
         gen=[dict(module="Gen_C08", slices=dict(quick=16, thorough=16))],
         rule="MC_Eip712: the dependency work-list equals the declarative closure, never repeats the primary type and "
              "terminates, for ALL reference tables of 3 struct types with <= 2 (quick) / 3 (thorough) references each "
@@ -196,9 +197,10 @@ CHECKS = {
     "C18": dict(
         level="model_checking",
         mc=[dict(module="MC_Vanity", cfg="MC_Vanity_N%d.cfg" % n, tag="MC_Vanity_N%d" % n, workers=16) for n in (0, 1, 2, 3)]
+           + [dict(module="MC_Vanity", cfg="MC_Vanity_N4.cfg", tag="MC_Vanity_N4", workers=16, tiers=("thorough",), env=dict(VERIF_VANITY_REQ="4"))]
            + [dict(module="MC_Prefix", workers=8)],
         gen=[dict(module="Gen_C18", slices=dict(quick=8, thorough=8), profiles=dict(quick=["dev"], thorough=["dev", "release"]))],
-        rule="MC_Vanity: all interleavings of main + N in 0..3 workers + channel + granting/refusing entropy environment "
+        rule="MC_Vanity: all interleavings of main + N in 0..3 (thorough: 0..4) workers + channel + granting/refusing entropy environment "
              "(3 abstract candidates, every matching subset, <= 4 (quick) / 5 (thorough) requests): a printed phrase is a "
              "granted match, the judge's observer fold admits every behaviour (no false alarm), pending messages lead "
              "to exit (liveness under weak fairness); MC_Prefix: prefix grammar over all strings <= 4 over "
